@@ -25,7 +25,7 @@ from .. import q
 from ..cfg import explore, must_facts, holds, canon_fact
 from ..mutate import mutate, remove_stmts, replace_expr, replace_stmt, parse_stmt, parse_expr
 from ..model import AnalysisError
-from ..x_emit import emissions, PH
+from ..x_emit import emissions, emission_program, PH
 from ..x_valuewalk import single_assignment, alias_expand, xdotted, xunparse
 from .c19 import ParseCtx, _writer_param, T
 
@@ -52,10 +52,11 @@ def _assigns_var(e, var):
 
 def rule_escape_before_append(ck):
     rid = "C20.escape-before-append"
-    g = ck.func(T, "_Expression.generate")
-    w = _writer_param(g)
-    ems = emissions(g.node, receiver=w)
-    ck.floor(rid, len(ems), 3, "emitted lines in _Expression.generate")
+    g0 = ck.func(T, "_Expression.generate")
+    w = _writer_param(g0)
+    g, ems, binding = emission_program(ck.repo, g0, w)
+    ck.use(g)
+    ck.floor(rid, len(ems), 3, "emitted lines of _Expression.generate")
     # the append emission: an expression statement calling a name with the value variable
     appends = []
     for e in ems:
@@ -70,6 +71,9 @@ def rule_escape_before_append(ck):
     var = appends[0][1]
     app_ems = [e for e, _ in appends]
     cur = w + ".current_template.autoescape"
+    for p_, a_ in binding.items():
+        if q.dotted(a_) == cur:
+            cur = p_  # the helper that builds the lines receives the setting as this parameter
     # escape emissions: var = ...F(var)... with F interpolated from the current template's autoescape
     escapes = []
     for e in ems:
@@ -311,6 +315,36 @@ def _popped_index(fi, v, stack):
     return None
 
 
+def _context_manager_of(ck, inc):
+    """(__exit__ FuncInfo, [__enter__ FuncInfos], writer attribute) of the context manager include() returns: a class
+    local to include() (closure over ``self``: attribute None) or a module-level class constructed with the writer
+    (``return _Scope(self)``; attribute = where its __init__ keeps that argument)."""
+    nested = ck.repo.nested(inc)
+    ex = [f for f in nested if f.name == "__exit__"]
+    if len(ex) == 1:
+        return ex[0], [f for f in nested if f.name == "__enter__"], None
+    m = inc.module
+    rets = [r for r in q.walk_body(inc.node) if isinstance(r, ast.Return) and r.value is not None]
+    for r in rets:
+        v = alias_expand(inc.node, r.value)
+        if isinstance(v, ast.Call) and isinstance(v.func, ast.Name) and v.func.id in m.classes:
+            cls = v.func.id
+            init = m.funcs.get(cls + ".__init__")
+            exf = m.funcs.get(cls + ".__exit__")
+            enf = m.funcs.get(cls + ".__enter__")
+            if init is None or exf is None:
+                continue
+            ip = [p_ for p_ in init.params() if p_ != "self"]
+            pos = [i for i, a in enumerate(v.args) if q.dotted(a) == "self"]
+            if len(pos) != 1 or pos[0] >= len(ip):
+                continue
+            wparam = ip[pos[0]]
+            attrs = [q.dotted(st.targets[0]).split(".", 1)[1] for st in q.walk_body(init.node) if isinstance(st, ast.Assign) and q.dotted(st.value) == wparam and (q.dotted(st.targets[0]) or "").startswith("self.")]
+            if len(attrs) == 1:
+                return exf, [enf] if enf is not None else [], attrs[0]
+    raise AnalysisError("_CodeWriter.include: the context manager it returns is neither a local class nor a module-level class constructed with the writer")
+
+
 def rule_include_scope(ck):
     rid = "C20.include-scope"
     m = ck.repo.module(T)
@@ -364,21 +398,45 @@ def rule_include_scope(ck):
     ck.ob(rid, inc, stores[0].ast if stores else inc.node, ok_store, "include() installs the included template as current")
     if ok_push and stores:
         ck.ob(rid, inc, stores[0].ast, cfg.dominates(pushes[0][0], stores[0]), "the old template is saved before it is overwritten")
-    ex = [f for f in ck.repo.nested(inc) if f.name == "__exit__"]
-    if len(ex) != 1:
-        raise AnalysisError("_CodeWriter.include no longer returns a local context manager")
-    ex = ck.use(ex[0])
-    rst = ex.cfg.stmt_nodes(lambda nd: nd.kind == "stmt" and "self.current_template" in q.assigned_paths(nd.ast))
+    ex, en, wattr = _context_manager_of(ck, inc)
+    ck.use(ex)
+
+    def wnorm(fi_, e_):
+        """expression of the context manager's method with the writer reference written as `self`"""
+        e2 = alias_expand(fi_.node, e_)
+        if wattr is None:
+            return e2
+
+        class _W(ast.NodeTransformer):
+            def visit_Attribute(self, node):
+                if q.dotted(node) == "self." + wattr:
+                    return ast.Name(id="self", ctx=ast.Load())
+                return self.generic_visit(node)
+
+        return _W().visit(e2)
+
+    def stores_to_writer(fi_, field):
+        out = []
+        for nd in fi_.cfg.stmt_nodes(lambda nd: nd.kind == "stmt" and isinstance(nd.ast, (ast.Assign, ast.AugAssign, ast.AnnAssign))):
+            tg = nd.ast.targets if isinstance(nd.ast, ast.Assign) else [nd.ast.target]
+            for t_ in tg:
+                if isinstance(t_, ast.Attribute) and (field is None or t_.attr == field) and q.dotted(wnorm(fi_, t_.value)) == "self" and (wattr is None or q.dotted(t_.value) != "self"):
+                    out.append(nd)
+        return out
+
+    rst = stores_to_writer(ex, "current_template")
     ok = False
     if len(rst) == 1 and stack is not None and idx is not None:
-        got = _popped_index(ex, rst[0].ast.value, stack)
+        val = wnorm(ex, rst[0].ast.value)
+        got = _popped_index(ex, val, stack)
+        if got is None:
+            got = _popped_index(ex, rst[0].ast.value, stack)
         if got is None:
             raise AnalysisError("include exit: restored value not understood: %s" % q.unparse(rst[0].ast))
         ok = got == idx and ex.cfg.postdominates(rst[0], ex.cfg.entry)
     ck.ob(rid, ex, rst[0].ast if rst else ex.node, bool(ok), "leaving the include restores the template that include() saved (last pushed entry, same tuple position), on every path")
-    en = [f for f in ck.repo.nested(inc) if f.name == "__enter__"]
     for f in en:
-        bad = [s for s in q.walk_body(f.node) if isinstance(s, (ast.Assign, ast.AugAssign)) and any(p.startswith("self.") for p in q.assigned_paths(s))]
+        bad = stores_to_writer(f, None)
         ck.ob(rid, f, f.node, not bad, "__enter__ of the include context does not touch the writer state", construct="__enter__ writes")
     # who may write current_template
     allowed = {inc.qualname, ex.qualname, "_CodeWriter.__init__"}
